@@ -55,9 +55,14 @@ def strategy(tier):
     # a change immediately observed by a nowrap=True per-device call
     setcall = st.tuples(st.just("setcall"), st.sampled_from(["net", "disk"]),
                         st.lists(dev_change(), min_size=4, max_size=4))
+    # one device's story: different fields go backwards in successive
+    # snapshots, the device vanishes (or not), comes back and is read again
+    story = st.tuples(st.just("story"), st.sampled_from(["net", "disk"]), st.integers(0, 3),
+                      st.lists(st.integers(0, 2), min_size=1, max_size=4), st.booleans(),
+                      st.integers(1, 3), st.sampled_from([0, 1, 7, 2**32]))
     return st.fixed_dictionaries(dict(
         ops=st.lists(st.one_of(set_raw, set_raw, set_none, call, call,
-                               call, clear, setcall, setcall, setcall, setcall),
+                               call, clear, setcall, setcall, setcall, setcall, story),
                      min_size=2, max_size=nops),
     ))
 
@@ -193,6 +198,32 @@ def run_case(case):
             if op[0] == "setcall":
                 expanded.append(["set", op[1], op[2]])
                 expanded.append(["call", op[1], True, True])
+            elif op[0] == "story":
+                _, fn, di, fields, vanish, reads, amt = op
+                labels.add("story")
+
+                def step(present=True, drop=None, amount=1):
+                    chs = []
+                    for j in range(4):
+                        if j != di:
+                            chs.append(dict(present=j in keep, mode=["same"] * 3, amount=[3, 2, 1]))
+                        else:
+                            mode = ["grow"] * 3
+                            if drop is not None:
+                                mode[drop] = "drop0" if amount == 0 else "drop"
+                            chs.append(dict(present=present, mode=mode, amount=[amount] * 3))
+                    expanded.append(["set", fn, chs])
+                    expanded.append(["call", fn, True, True])
+
+                keep = {j for j, nm in enumerate(w.names(fn)) if nm in w.raw[fn]}
+                step(amount=5)
+                for f in fields:
+                    step(drop=f, amount=amt)
+                if vanish:
+                    step(present=False)
+                    step(amount=9)
+                for _ in range(reads):
+                    step(amount=1)
             else:
                 expanded.append(op)
         for op in expanded:
